@@ -13,6 +13,7 @@ from typing import Dict, List, Optional, Set
 from ..program import AnalysisError, FunctionInfo, fn_nodes, norm
 from ..cfg import cfg_of
 from .common import in_family, isinstance_excludes, len_vs_const, misguarded_member_stores, resolve_all, find_local, JWE_CONSUME, JWE_PRODUCE, can_reach_exit, const_value, entries, impls, is_const, scope_of, sites_calling, succ_by_label
+from .common import inconclusive_on_error as _ioe
 
 RFC7516_TOP = {"protected", "unprotected", "iv", "aad", "ciphertext", "tag"}
 RFC7516_RCP = {"header", "encrypted_key"}
@@ -296,6 +297,53 @@ def r04_3(ctx) -> None:
               construct="compact reader order")
 
 
+@_ioe
+def _headers_folded(ctx):
+    """Fold Recipient.headers() on probe recipients under each of the three message classes: the result is a NEW dict equal to the protected header
+    overlaid with the shared unprotected header (JSON serializations, when non-empty) overlaid with the recipient's own header (when non-empty) -
+    later layers win on a shared name, key order is that of first insertion - and none of the three source dicts is changed or handed out.
+    Returns the list of deviations, or None when the fold is inconclusive (DESIGN 11.11)."""
+    from ..fold import FuncVal, is_unknown, Inst
+    eng = ctx.eng
+    P, F = eng.prog, eng.folder
+    R = P.cls("rfc7516.models:Recipient")
+    h = R.methods.get("headers")
+    kinds = [("compact", P.cls("rfc7516.models:CompactEncryption")), ("general", P.cls("rfc7516.models:GeneralJSONEncryption")), ("flattened", P.cls("rfc7516.models:FlattenedJSONEncryption"))]
+    prot_s = [{"enc": "E", "alg": "P"}, {"enc": "E"}]
+    unp_s = [None, {}, {"alg": "U", "zip": "u"}, {"jku": "u"}]
+    hdr_s = [None, {}, {"alg": "H"}, {"alg": "H", "zip": "h", "kid": "k"}]
+    problems: List[str] = []
+    F.start_trace()
+    try:
+        for kname, kcls in kinds:
+            for pr in prot_s:
+                for un in (unp_s if kname != "compact" else [None]):
+                    for hd in hdr_s:
+                        p_, u_, h_ = dict(pr), (dict(un) if un is not None else None), (dict(hd) if hd is not None else None)
+                        parent = F.instantiate(kcls, [p_, b"m"] + ([u_] if kname != "compact" else []), {})
+                        rcp = F.instantiate(R, [parent, h_, None], {})
+                        if not isinstance(parent, Inst) or not isinstance(rcp, Inst):
+                            return None
+                        got = F.call(FuncVal(h, None, rcp), [], {})
+                        if is_unknown(got) or not isinstance(got, dict) or any(is_unknown(v) for v in got.values()):
+                            return None
+                        want = dict(pr)
+                        if kname != "compact" and un:
+                            want.update(un)
+                        if hd:
+                            want.update(hd)
+                        where = f"{kname}: protected {pr}, unprotected {un}, recipient header {hd}"
+                        if got != want or list(got) != list(want):
+                            problems.append(f"headers() is {got}, the merged view must be {want} ({where})")
+                        if got is p_ or got is u_ or got is h_:
+                            problems.append(f"headers() hands out one of the header dicts itself instead of a new dict ({where})")
+                        if p_ != pr or (un is not None and u_ != un) or (hd is not None and h_ != hd):
+                            problems.append(f"headers() changes a header of the message ({where})")
+    finally:
+        sided = F.one_sided(ignore=("__init__",))
+    return None if sided else problems
+
+
 def r04_4(ctx) -> None:
     eng = ctx.eng
     P = eng.prog
@@ -328,8 +376,13 @@ def r04_4(ctx) -> None:
             ctx.check(why_ is None, "R04.4", h, u, f"{h.short} :: shared unprotected header of every JSON serialization", "the shared unprotected header is merged into a recipient's "
                       f"headers only for some JSON serialization classes: {why_} - for the others alg / epk / p2s ... placed there are ignored", "isinstance(parent, BaseJSONEncryption)",
                       construct="unprotected merge class coverage")
-    ctx.check(ok, "R04.4", h, h.node, h.short, f"Recipient.headers does not merge protected, then shared unprotected, then per-recipient members into a fresh dict (order {order})",
-              "rv = {}; update(protected); update(unprotected); update(header)", construct="header merge order")
+    hf = _headers_folded(ctx)
+    if hf is not None:
+        ctx.check(not hf, "R04.4", h, h.node, h.short, "Recipient.headers does not merge protected, then shared unprotected, then per-recipient members into a fresh dict: " + "; ".join(hf[:2]),
+                  "a new dict: protected, overlaid with the shared unprotected header, overlaid with the recipient's header", construct="header merge order")
+    else:
+        ctx.check(ok, "R04.4", h, h.node, h.short, f"Recipient.headers does not merge protected, then shared unprotected, then per-recipient members into a fresh dict (order {order})",
+                  "rv = {}; update(protected); update(unprotected); update(header)", construct="header merge order")
     cfg = cfg_of(ah)
     t = [x for x in cfg.nodes if x.kind == "test" and isinstance(x.ast, ast.Call) and norm(x.ast.func) == "isinstance" and norm(x.ast.args[1]) == "CompactEncryption"]
     okc = bool(t)
